@@ -34,6 +34,32 @@ Proof.
   - rewrite andb_true_r, (N.eqb_sym 95 c1), (N.eqb_sym 95 c2). reflexivity.
 Qed.
 
+Lemma skipn_skipn' {A} (x y : nat) (l : list A) : skipn x (skipn y l) = skipn (x + y) l.
+Proof.
+  revert l. induction y as [|y IH]; intros l.
+  - rewrite Nat.add_0_r. reflexivity.
+  - destruct l as [|a l]; [destruct x; reflexivity|]. rewrite Nat.add_succ_r. cbn [skipn]. apply IH.
+Qed.
+
+Lemma sumc_firstn_skipn n l : sumc (firstn n l) + sumc (skipn n l) = sumc l.
+Proof.
+  revert l. induction n as [|n IH]; intros l; [reflexivity|]. destruct l as [|x l]; [reflexivity|].
+  cbn [firstn skipn]. unfold sumc in *. cbn [fold_right]. specialize (IH l). lia.
+Qed.
+Lemma sumc_skipn_le a b l : a <= b -> sumc (skipn b l) <= sumc (skipn a l).
+Proof.
+  intros H. replace b with ((b - a) + a) by lia. rewrite <- skipn_skipn'.
+  pose proof (sumc_firstn_skipn (b - a) (skipn a l)). lia.
+Qed.
+Lemma sumc_slice l a b lo : lo <= a -> a <= b ->
+  sumc (slice l a b) + sumc (skipn b l) <= sumc (skipn lo l).
+Proof.
+  intros H1 H2. unfold slice.
+  pose proof (sumc_firstn_skipn (b - a) (skipn a l)) as E. rewrite skipn_skipn' in E.
+  replace (b - a + a) with b in E by lia.
+  pose proof (sumc_skipn_le lo a l H1). lia.
+Qed.
+
 Section W.
 Variable hatom : atom -> pystr.
 Variable udiff : pystr -> pystr -> pystr.
@@ -41,7 +67,7 @@ Variable ops : path -> list value -> list value -> list opcode.
 Variable skip excl : path -> bool.
 Variable c : cfg.
 Notation diff := (diff hatom udiff ops skip excl c).
-Hypothesis Hzip : zip c = true.
+Hypothesis Hmode : zip c = true \/ ops_tiling ops.
 Hypothesis Hpriv : ignore_private c = true.
 
 Lemma report_w k p1 p2 a b d :
@@ -101,12 +127,72 @@ Proof.
       unfold sumc in *. cbn [fold_right]. lia.
 Qed.
 
+Lemma pairs_leaf_w xs : forall ys i j p1 p2,
+  w1 (pairs_leaf udiff skip xs ys i j p1 p2) <= sumc xs /\ w2 (pairs_leaf udiff skip xs ys i j p1 p2) <= sumc ys.
+Proof.
+  induction xs as [|x xs IH]; intros ys i j p1 p2.
+  - cbn [pairs_leaf]. destruct (added_from_w ys j p1 p2). cbn. lia.
+  - destruct ys as [|y ys].
+    + cbn [pairs_leaf]. destruct (removed_from_w (x :: xs) i p1 p2). cbn [sumc fold_right] in *. lia.
+    + cbn [pairs_leaf]. rewrite w1_app, w2_app. destruct (IH ys (S i) (S j) p1 p2) as [A B].
+      assert (H : w1 (if negb (i =? j) && py_eq_leaf x y
+                      then report skip KIterMoved (snoc p1 (PIdx i)) (snoc p2 (PIdx j)) (Some x) (Some y) None
+                      else diff_leaf udiff skip x y (snoc p1 (PIdx i)) (snoc p2 (PIdx j))) <= count x /\
+                  w2 (if negb (i =? j) && py_eq_leaf x y
+                      then report skip KIterMoved (snoc p1 (PIdx i)) (snoc p2 (PIdx j)) (Some x) (Some y) None
+                      else diff_leaf udiff skip x y (snoc p1 (PIdx i)) (snoc p2 (PIdx j))) <= count y).
+      { destruct (negb (i =? j) && py_eq_leaf x y).
+        - apply (report_w KIterMoved _ _ (Some x) (Some y) None).
+        - unfold diff_leaf. destruct x as [a| | | | |], y as [b| | | | |]; try (cbn; lia).
+          destruct (diff_atom_w a b (snoc p1 (PIdx i)) (snoc p2 (PIdx j))). cbn [count]. lia. }
+      unfold sumc in *. cbn [fold_right]. lia.
+Qed.
+
+Lemma by_opcodes_w os : forall lo1 lo2 xs ys p1 p2, ops_tile lo1 lo2 os = true ->
+  w1 (by_opcodes udiff skip os xs ys p1 p2) <= sumc (skipn lo1 xs) /\
+  w2 (by_opcodes udiff skip os xs ys p1 p2) <= sumc (skipn lo2 ys).
+Proof.
+  induction os as [|o os IH]; intros lo1 lo2 xs ys p1 p2 H; unfold by_opcodes in *; cbn [flat_map]; [cbn; lia|].
+  cbn [ops_tile] in H. repeat (apply andb_prop in H; destruct H as [H ?H]).
+  repeat match goal with E : Nat.leb _ _ = true |- _ => apply Nat.leb_le in E end.
+  rewrite w1_app, w2_app.
+  destruct (IH (oi2 o) (oj2 o) xs ys p1 p2 H0) as [A B].
+  pose proof (sumc_slice xs (oi1 o) (oi2 o) lo1 ltac:(assumption) ltac:(assumption)) as S1.
+  pose proof (sumc_slice ys (oj1 o) (oj2 o) lo2 ltac:(assumption) ltac:(assumption)) as S2.
+  assert (HS1 : sumc (skipn (oi2 o) xs) <= sumc (skipn lo1 xs)) by (apply sumc_skipn_le; lia).
+  assert (HS2 : sumc (skipn (oj2 o) ys) <= sumc (skipn lo2 ys)) by (apply sumc_skipn_le; lia).
+  destruct (otag o).
+  - cbn. lia.
+  - destruct (pairs_leaf_w (slice xs (oi1 o) (oi2 o)) (slice ys (oj1 o) (oj2 o)) (oi1 o) (oj1 o) p1 p2). lia.
+  - destruct (removed_from_w (slice xs (oi1 o) (oi2 o)) (oi1 o) p1 p2). lia.
+  - destruct (added_from_w (slice ys (oj1 o) (oj2 o)) (oj1 o) p1 p2). lia.
+Qed.
+
+Lemma default_leaf_list_w xs ys p1 p2 : ops_tiling ops ->
+  w1 (fst (default_leaf_list udiff ops skip xs ys p1 p2)) <= sumc xs /\
+  w2 (fst (default_leaf_list udiff ops skip xs ys p1 p2)) <= sumc ys.
+Proof.
+  intros T. unfold default_leaf_list.
+  pose proof (by_opcodes_w (ops p1 xs ys) 0 0 xs ys p1 p2 (T p1 xs ys)) as P1. cbn [skipn] in P1.
+  pose proof (pairs_leaf_w xs ys 0 0 p1 p2) as P2.
+  destruct (Nat.ltb 1 _); [|exact P1].
+  destruct (Nat.leb _ _); cbn [fst]; assumption.
+Qed.
+
 Lemma seq_body_w xs ys p1 p2 : Forall WB xs ->
   forallb wf xs = true -> forallb wf ys = true ->
   w1 (fst (seq_body hatom udiff ops skip excl c xs ys p1 p2)) <= sumc xs /\
   w2 (fst (seq_body hatom udiff ops skip excl c xs ys p1 p2)) <= sumc ys.
 Proof.
-  intros H W1 W2. unfold seq_body. rewrite Hzip. cbn [negb andb]. apply go_list_w; assumption.
+  intros H W1 W2. unfold seq_body.
+  destruct (negb (zip c) && forallb is_atom xs && forallb is_atom ys) eqn:B.
+  - assert (Z : zip c = false).
+    { apply andb_prop in B. destruct B as [B _]. apply andb_prop in B. destruct B as [B _].
+      apply negb_true_iff in B. exact B. }
+    destruct Hmode as [Hz|T]; [congruence|].
+    pose proof (default_leaf_list_w xs ys p1 p2 T) as P.
+    destruct (default_leaf_list udiff ops skip xs ys p1 p2) as [es r]. cbn [fst] in *. exact P.
+  - apply go_list_w; assumption.
 Qed.
 
 (* sets *)
@@ -515,10 +601,11 @@ Proof.
 Qed.
 End B.
 
-(* ---------- DeepDiff(t1, t2, get_deep_distance=True), positional mode ---------- *)
-Theorem deep_distance_positional_range :
+(* ---------- DeepDiff(t1, t2, get_deep_distance=True), ordered mode ---------- *)
+Theorem deep_distance_ordered_range :
   forall hatom udiff ops skip excl c incl cutoff t1 t2 n m,
-    zip c = true -> ignore_private c = true -> wf t1 = true -> wf t2 = true ->
+    zip c = true \/ ops_tiling ops ->
+    ignore_private c = true -> wf t1 = true -> wf t2 = true ->
     tcs_ok incl (fst (diff hatom udiff ops skip excl c t1 t2 [] [])) = true ->
     deep_distance_of_diff hatom udiff ops skip excl c incl cutoff t1 t2 = RFrac n m ->
     0 < n /\ n <= m.
@@ -532,3 +619,30 @@ Proof.
   pose proof (entries_ops_bound incl _ _ G _ E) as B.
   destruct (diff_weights hatom udiff ops skip excl c Z P t1 t2 [] [] W1 W2) as [A1 A2]. lia.
 Qed.
+
+Theorem deep_distance_positional_range :
+  forall hatom udiff ops skip excl c incl cutoff t1 t2 n m,
+    zip c = true -> ignore_private c = true -> wf t1 = true -> wf t2 = true ->
+    tcs_ok incl (fst (diff hatom udiff ops skip excl c t1 t2 [] [])) = true ->
+    deep_distance_of_diff hatom udiff ops skip excl c incl cutoff t1 t2 = RFrac n m ->
+    0 < n /\ n <= m.
+Proof.
+  intros hatom udiff ops skip excl c incl cutoff t1 t2 n m Z. apply deep_distance_ordered_range. left. exact Z.
+Qed.
+
+(* the hypotheses are satisfiable in default mode: [1, 2] vs (1, 3) -> 4 / 6, and with the
+   opcodes difflib returns for [1, 2, 3] -> [1, 3, 4, 5] (two value changes and an added item) -> 3 / 9 *)
+Definition ex_cfg : cfg := mkCfg false 33 100 true.
+Definition ex_ops (_ : path) (_ _ : list value) : list opcode :=
+  [mkOp OEqual 0 1 0 1; mkOp OReplace 1 3 1 4].
+Example deep_distance_guard_satisfiable :
+  let I z := VAtom (AInt z) in
+  ops_tiling ex_ops /\
+  tcs_ok (fun _ _ => true)
+    (fst (diff (fun _ => []) (fun _ _ => []) ex_ops (fun _ => false) (fun _ => false) ex_cfg
+               (VList [I 1; I 2]%Z) (VTuple [I 1; I 3]%Z) [] [])) = true /\
+  deep_distance_of_diff (fun _ => []) (fun _ _ => []) ex_ops (fun _ => false) (fun _ => false) ex_cfg
+    (fun _ _ => true) PrimFloat.one (VList [I 1; I 2]%Z) (VTuple [I 1; I 3]%Z) = RFrac 4 6 /\
+  deep_distance_of_diff (fun _ => []) (fun _ _ => []) ex_ops (fun _ => false) (fun _ => false) ex_cfg
+    (fun _ _ => true) PrimFloat.one (VList [I 1; I 2; I 3]%Z) (VList [I 1; I 3; I 4; I 5]%Z) = RFrac 3 9.
+Proof. repeat split; vm_compute; reflexivity. Qed.
